@@ -287,3 +287,16 @@ Fixpoint html_comment (st : cstate) (data : list N) (s : list N) : list N * list
       | Emit d' => (d', r)
       end
   end.
+
+(** ------------------------------------------------------------------ the exact HTML5 guard
+    [contains p s]: [p] occurs in [s] as a substring *)
+Fixpoint contains (p s : list N) : bool :=
+  match s with
+  | [] => starts_with p []
+  | _ :: r => starts_with p s || contains p r
+  end.
+
+(** the comment texts that the WHATWG comment states read as ONE comment ending at the flattener's
+    own "-->": not starting with ">" or "->", not containing "--!>" *)
+Definition html5_guard (s : list N) : bool :=
+  negb (starts_with [62] s) && negb (starts_with [45; 62] s) && negb (contains [45; 45; 33; 62] s).
